@@ -1,0 +1,12 @@
+//go:build verif
+
+package bytecode
+
+// VerifYield, when set, is called at points where generator state could be shared.
+var VerifYield func(site string)
+
+func verifYield(site string) {
+	if VerifYield != nil {
+		VerifYield(site)
+	}
+}
